@@ -127,6 +127,10 @@ func runSeq(c *engine.Ctx, steps []seqStep, share string) bool {
 				return false
 			}
 		case st.mode != modeNone:
+			if pi != nil && brokenCount(st.mode) {
+				c.Obs("seq:"+st.mode+":LIB_panicked(count outside 0..len(p), not judged)", 1)
+				break
+			}
 			if pi != nil {
 				c.Violation("LIB|sequence|panic-on-write-failure|"+engine.SiteNoLine(pi.Site)+"|"+st.mode+"|after-"+prev, det(), pi.String(), "a non-nil error")
 				return false
@@ -171,6 +175,15 @@ func runSeq(c *engine.Ctx, steps []seqStep, share string) bool {
 	return true
 }
 
+// seqModes: the fault of the failed call of a sequence.  Every mode for the
+// smallest instances, the judged count modes for the others.
+func seqModes(n1 int) []string {
+	if n1 <= 2 {
+		return allInProcessModes()
+	}
+	return joinModes(faultModes, fullCountModes, countModes)
+}
+
 var seqFamilies = []string{"neg", "large", randFamily}
 
 func seqUnits(c *engine.Ctx) {
@@ -198,7 +211,8 @@ func seqUnits(c *engine.Ctx) {
 			}
 			// failed call -> healthy call; healthy -> failed -> healthy
 			for _, n1 := range n1s {
-				for _, mode := range faultModes {
+				for _, mode := range seqModes(n1) {
+					perm := specs[mode].perm
 					for p := 0; p < W[n1]; p++ {
 						if c.Stopped() {
 							return
@@ -209,7 +223,7 @@ func seqUnits(c *engine.Ctx) {
 						if !runSeq(c, []seqStep{f, mk(n2)}, "fresh") {
 							return
 						}
-						if p%3 == 0 && mode != modePermanent {
+						if p%3 == 0 && !perm {
 							if !runSeq(c, []seqStep{f, mk(n2)}, "same") {
 								return
 							}
